@@ -526,6 +526,33 @@ func churnProgram(rng *rand.Rand, n int, big bool, variant int) *program {
 	return p
 }
 
+// largeProgram uses the default table size (1 MiB) and entries of tens to hundreds of KiB: what compaction moves in one
+// step, and what fits a table, is counted in bytes as well as in entries.
+func largeProgram(rng *rand.Rand, n int) *program {
+	keys := keysN(8)
+	p := &program{Src: "large", T: 1 << 20, IdleMs: 0, Keys: keys, ObsEvery: 7, Pattern: "^[abc]"}
+	sizes := []int{40 << 10, 150 << 10, 200 << 10, 300 << 10, 520 << 10}
+	raw := rng.Intn(2) == 0
+	for i := 0; i < n; i++ {
+		k := keys[rng.Intn(len(keys))]
+		switch x := rng.Intn(10); {
+		case x < 6:
+			o := "put"
+			if raw {
+				o = "putraw"
+			}
+			p.Ops = append(p.Ops, op{Op: o, K: k, Sz: sizes[rng.Intn(len(sizes))] + rng.Intn(1000)})
+		default:
+			p.Ops = append(p.Ops, op{Op: "del", K: k})
+		}
+		if (i+1)%9 == 0 {
+			p.Ops = append(p.Ops, op{Op: "compactall"})
+		}
+	}
+	p.Ops = append(p.Ops, op{Op: "compactall"}, op{Op: "compactall"})
+	return p
+}
+
 func loadBehaviours(path string, T int) ([]*program, error) {
 	f, err := os.Open(path)
 	if err != nil {
@@ -598,6 +625,9 @@ func TestKV(t *testing.T) {
 	}
 	for i := 0; i < envInt("VERIF_KV_CHURN", 0); i++ {
 		progs = append(progs, churnProgram(rng, envInt("VERIF_KV_CHURN_LEN", 3000), false, i))
+	}
+	for i := 0; i < envInt("VERIF_KV_LARGE", 0); i++ {
+		progs = append(progs, largeProgram(rng, 60))
 	}
 	for i := 0; i < envInt("VERIF_KV_BIG", 0); i++ {
 		progs = append(progs, churnProgram(rng, 20000, true, i))
